@@ -9,7 +9,7 @@ import collections
 import gen
 from props import base, refdict
 
-PREFIXES = [None, 'a', 'a-5', 'a-', 'b']
+PREFIXES = [None, 'a', 'a-5', 'a-', 'b', '']       # '' is a prefix like any other, not "no prefix"
 ORDINARY = ['a-1', 'a', 'zz', b'a', -3, (1, 2), 'a-5-x']
 
 
@@ -155,7 +155,7 @@ def exhaustive_small(n_ops):
     """every sequence of n_ops queue calls over prefixes that extend one another (None, 'a', 'a-5',
     'a-5-1'), both sides, followed by draining every queue from the front"""
     import itertools
-    prefixes = [None, 'a', 'a-5']
+    prefixes = [None, 'a', 'a-5', '']
     alpha = []
     for pf in prefixes:
         alpha.append({'m': 'push', 'prefix': pf, 'side': 'back', 'v': 'x', 'ttl': None, 'tag': None})
